@@ -49,6 +49,8 @@ def rand_token(rng):
     if name in ('uint', 'int'):
         n = rng.randint(1, 70)
         v = rng.randrange(0, 1 << n) if name == 'uint' else rng.randrange(-(1 << (n - 1)), 1 << (n - 1))
+        if rng.random() < 0.15:
+            v = 0
     elif name in ('uintbe', 'uintle', 'intle'):
         n = 8 * rng.randint(1, 5)
         v = rng.randrange(0, 1 << n) if name != 'intle' else rng.randrange(-(1 << (n - 1)), 1 << (n - 1))
@@ -67,7 +69,7 @@ def rand_token(rng):
     elif name == 'float':
         n = rng.choice([16, 32, 64]); v = rng.choice([0.0, 1.5, -2.25, 1024.0])
     else:
-        n = None; v = rng.randint(0, 200)
+        n = None; v = rng.choice([0, 0, rng.randint(0, 200)])
     return name, n, v
 
 
@@ -93,13 +95,19 @@ def grammar(tier='quick', seed=0):
     N = 1500 if tier == 'quick' else 20000
     for _ in range(N):
         toks = [rand_token(rng) for _ in range(rng.randint(1, 5))]
-        parts, vals, want = [], [], ''
+        parts, vals, want, kws = [], [], '', {}
         for name, n, v in toks:
             inline = rng.random() < 0.3
             s = spell(rng, name, n, inline, v)
             if s is None:
                 inline = False
                 s = spell(rng, name, n, False, v)
+            if not inline and v is not None and not isinstance(v, bytes) and rng.random() < 0.25:
+                # the value through a keyword: 'uint:8=kv0' with kv0=... (zero, False and 0.0 are values like any other)
+                kn = f'kv{len(kws)}'
+                kws[kn] = v
+                s += f'={kn}'
+                inline = True
             parts.append(s)
             if not inline and v is not None:
                 vals.append(v)
@@ -107,7 +115,7 @@ def grammar(tier='quick', seed=0):
         fmt = rng.choice([', ', ',', ' ,  ']).join(parts)
         evals += 1
         try:
-            p = pack(fmt, *vals)
+            p = pack(fmt, *vals, **kws)
             ok = p.bin == want
             if ok:
                 back = p.unpack(', '.join(spell(rng, nm, n, False, v) for nm, n, v in toks))
@@ -116,8 +124,8 @@ def grammar(tier='quick', seed=0):
         except Exception as e:
             ok = False
         if not ok:
-            fails.append({'call': f'pack({fmt!r}, *{vals!r})', 'expected_bin': want[:80],
-                          'python': f"import bitstring\ntry:\n    FAILS = bitstring.pack({fmt!r}, *{vals!r}).bin != {want!r}\nexcept Exception:\n    FAILS = True"})
+            fails.append({'call': f'pack({fmt!r}, *{vals!r}, **{kws!r})', 'expected_bin': want[:80],
+                          'python': f"import bitstring\ntry:\n    FAILS = bitstring.pack({fmt!r}, *{vals!r}, **{kws!r}).bin != {want!r}\nexcept Exception:\n    FAILS = True"})
             if len(fails) > 5:
                 break
         # compositional laws
